@@ -214,6 +214,8 @@ pub fn run(tier: Tier, seed: u64, replay: Option<String>) -> i32 {
     let mut drv = Driver::new(seed, 13, 2500);
     let streams: Vec<Vec<u32>> = drv.draw(n_inputs).iter().map(|t| t.current()).collect();
     let thorough = tier == Tier::Thorough;
+    let multi_variants = tier.pick(6, 20);
+    let known_ids: std::collections::BTreeSet<String> = known_sites.keys().cloned().collect();
     type Row = (String, String, String, String, &'static str, bool, Option<(&'static str, String)>);
     let rows: Vec<Vec<Row>> = streams
         .par_iter()
@@ -245,8 +247,37 @@ pub fn run(tier: Tier, seed: u64, replay: Option<String>) -> i32 {
                     out.push((base_text.clone(), vt, kind_of(l), kind_of(r), form.class(), inside, cmp));
                 }
             }
-            // random subsets of boundaries at once (only reported when no single boundary of
-            // the subset fails on its own: multi-boundary interactions)
+            // random subsets of boundaries at once: boundaries that are listed finding sites (for the
+            // chosen layout class) keep the base layout, so a failure here is an interaction of
+            // boundaries that are each fine on their own
+            let mut src = crate::src::Src::new(&s[s.len() / 2..]);
+            for _ in 0..multi_variants {
+                let pct = [10u32, 30, 60][src.pick(3)];
+                let mut seps: Vec<Option<String>> = vec![None; toks.len()];
+                let mut changed = 0;
+                for i in 1..toks.len() {
+                    if !src.chance(pct) {
+                        continue;
+                    }
+                    let form = Form::ALL[src.pick(Form::ALL.len())];
+                    let (l, r) = (&toks[i - 1].text, &toks[i].text);
+                    if form == Form::Nothing && !separable(l, r) {
+                        continue;
+                    }
+                    if known_ids.contains(&site_id(&kind_of(l), &kind_of(r), form.class())) {
+                        continue;
+                    }
+                    let body = COMMENT_BODIES[src.pick(COMMENT_BODIES.len())];
+                    seps[i] = Some(form.text(body));
+                    changed += 1;
+                }
+                if changed < 2 {
+                    continue;
+                }
+                let (vt, _) = render_with(&toks, &|k| seps[k].clone().unwrap_or_else(|| default_sep(&toks, k, false)), "\n");
+                let cmp = compare(&base, &observe(&vt));
+                out.push((base_text.clone(), vt, "many".to_string(), format!("{changed} boundaries"), "mixed", true, cmp));
+            }
             out
         })
         .collect();
